@@ -139,6 +139,21 @@ Definition expected_orients (sc : scene) (ps : list piece) : list Z :=
   let rings := scene_rings sc in
   map (fun p => piece_orientation (snd (nth (pc_ring p) rings (Outer, []))) p) ps.
 
+(* relations may also have node / relation members (boundary layout: admin_centre first, subarea
+   relations): their piece is a dummy, they are never annotated (expected orientation 0, by
+   member index) and take no part in the cut *)
+Fixpoint expected_orients_m (sc : scene) (ms : list (bool * Z * role)) (ps : list piece) : list Z :=
+  match ms, ps with
+  | (isw, _, _) :: mr, p :: pr =>
+      (if isw then hd 0 (expected_orients sc [p]) else 0) :: expected_orients_m sc mr pr
+  | _, _ => []
+  end.
+Fixpoint way_pieces (ms : list (bool * Z * role)) (ps : list piece) : list piece :=
+  match ms, ps with
+  | (isw, _, _) :: mr, p :: pr => if isw then p :: way_pieces mr pr else way_pieces mr pr
+  | _, _ => []
+  end.
+
 Fixpoint truthful_or_none (given expected : list Z) : bool :=
   match given, expected with
   | [], [] => true
@@ -150,7 +165,8 @@ Fixpoint truthful_or_none (given expected : list Z) : bool :=
 Definition member_is_piece (sc : scene) nodes rawways (m : bool * Z * role) (p : piece) : bool :=
   let '(isw, ref, ro) := m in
   let '(ringrole, ring) := nth (pc_ring p) (scene_rings sc) (OtherRole, []) in
-  isw && role_eqb ro ringrole &&
+  negb isw ||
+  role_eqb ro ringrole &&
   match lookup_way (mk_ways false nodes rawways) ref with
   | None => false
   | Some w =>
@@ -190,10 +206,11 @@ Definition check_scene : P (list Z) :=
   match spec with
   | None => ret (code_if j1 1)
   | Some (sc, ps) =>
-      let exp := expected_orients sc ps in
+      let exp := expected_orients_m sc rawmems ps in
       let j2 := forallb (run_spec_ok sc) runs
                 && forallb (fun a => let '(_, ok, oout) := a in ok && zlist_eqb oout exp) annots in
-      let j3 := scene_ok sc && contained_b sc && valid_cuts sc ps
+      let j3 := scene_ok sc && contained_b sc && valid_cuts sc (way_pieces rawmems ps)
+                && Nat.eqb (length rawmems) (length ps)
                 && forallb2 (member_is_piece sc nodes rawways) rawmems ps
                 && forallb (fun r => truthful_or_none (run_orients r) exp) runs in
       (* annotate.Relations must write truthful orientations whatever the members carried
